@@ -10,7 +10,11 @@ import RV.Base.SetList
   is NOT modelled is the text a serializer prints or the algebra a query
   evaluates: those parts are functions of the triples the read iterates over
   (parameters `body`, `canon`, `digest` below).  The tie to the code is the
-  before/after snapshot correspondence over all read APIs (harness/c13.py).
+  before/after snapshot correspondence over all read APIs (harness/c13.py);
+  since round g also the bound namespaces (`ns`) after every read and, for the
+  reads whose `Out` is computed exactly here (len, iteration, patterns, quad
+  reads, graph listing, cbd, nt/nquads, aggregate reads, exact query shapes),
+  the answer itself.
 
   Anchors
     rdflib/graph.py            ConjunctiveGraph._graph / _spoc / triples / quads / __contains__ / get_graph,
@@ -119,6 +123,9 @@ def emptyDataset : State := ⟨[], [], false, true, .dflt, []⟩
 def State.visible (s : State) : List Triple :=
   if s.defaultUnion then unionTriples s.quads else triplesOf s.quads s.dname
 
+/-- `ConjunctiveGraph` (always `default_union`) or `Dataset`, as opposed to a plain `Graph` / a view -/
+def State.contextAware (s : State) : Bool := s.isDataset || s.defaultUnion
+
 /-- "the default graph always exists": graph names with the default graph added -/
 def State.graphNames (s : State) : List GName := sinsert s.known s.dname
 
@@ -170,10 +177,14 @@ def CtxArg.name : CtxArg → GName
   | .ident g => g
   | .view g => g
 
-/-- `_spoc` on a quad: `c = self._graph(c)` -/
+/-- `_spoc` on a quad: `c = self._graph(c)`.  In the code as it is now (`fix: ConjunctiveGraph/Dataset no longer copy
+    a graph of the same store into itself on reads`) an identifier becomes `get_context(c)` (a new Graph object, no
+    store access) and a Graph backed by THIS store is returned as it is (`c.store is self.store`); only a foreign
+    graph is copied (`graphForeign`).  `graphView` above is the self-copy the earlier code performed
+    (`same_store_view_is_noop`: it changed nothing either). -/
 def State.resolveCtx (s : State) : CtxArg → State
   | .ident _ => s
-  | .view g => s.graphView g
+  | .view _ => s
 
 /-- the graph a `triples` call finally reads, after the `default_union` adjustment:
     `none` = the union of all graphs -/
@@ -193,33 +204,36 @@ def State.matching (s : State) (pat : Pat) (c : Option GName) : List Triple :=
   | some g => (triplesOf s.quads g).filter pat.matches
 
 /-- `ConjunctiveGraph.triples(pat, context=view)` with a triple pattern:
-    `context = self._graph(context or c)` — an EMPTY view is falsy, so `context or c` is `None`. -/
+    `context = self._graph(context if context is not None else c)` — an EMPTY view is still the context
+    (`fix: ConjunctiveGraph.triples resolves the context with 'is not None'`). -/
 def State.readTriplesCtx (s : State) (pat : Pat) (g : GName) : State × Out :=
-  if (triplesOf s.quads g).isEmpty then (s, .triples (s.matching pat none))
-  else
-    let s1 := s.graphView g
-    (s1, .triples (s1.matching pat (some g)))
+  ((s.resolveCtx (.view g)), .triples (s.matching pat (some g)))
 
-/-- `ConjunctiveGraph.triples((s, p, o, c))`: `_spoc` resolves `c` (first `_graph`), then
-    `self._graph(context or c)` with `context = None` resolves the resulting Graph again. -/
+/-- `ConjunctiveGraph.triples((s, p, o, c))`: `_spoc` resolves `c`, then `self._graph(c)` again. -/
 def State.readTriples4 (s : State) (pat : Pat) (c : CtxArg) : State × Out :=
-  let s1 := s.resolveCtx c
-  let s2 := s1.graphView c.name
-  (s2, .triples (s2.matching pat (some c.name)))
+  ((s.resolveCtx c).resolveCtx c, .triples (s.matching pat (some c.name)))
 
-/-- `quad in ds`: `_spoc` resolves `c`; `self.triples(pat, context=c)` resolves it again
-    unless the graph is empty (falsy). -/
+/-- `quad in ds`: `_spoc` resolves `c`; `self.triples((s, p, o), context=c)`. -/
 def State.readContains4 (s : State) (pat : Pat) (c : CtxArg) : State × Out :=
-  let s1 := s.resolveCtx c
-  if (triplesOf s1.quads c.name).isEmpty then (s1, .bool !(s1.matching pat none).isEmpty)
-  else
-    let s2 := s1.graphView c.name
-    (s2, .bool !(s2.matching pat (some c.name)).isEmpty)
+  ((s.resolveCtx c).resolveCtx c, .bool !(s.matching pat (some c.name)).isEmpty)
 
-/-- `ds.quads((s, p, o, c))`: `_spoc` only -/
+/-- the graphs a triple is in: what `Memory.triples` hands out next to every triple (`__contexts(triple)`) -/
+def contextsOfTriple : List Quad → Triple → List GName
+  | [], _ => []
+  | (t', g) :: qs, t => if t' = t then g :: contextsOfTriple qs t else contextsOfTriple qs t
+
+def quadsFor (qs : List Quad) : List Triple → List Quad
+  | [] => []
+  | t :: ts => tagAll t (contextsOfTriple qs t) ++ quadsFor qs ts
+where
+  tagAll (t : Triple) : List GName → List Quad
+    | [] => []
+    | g :: gs => (t, g) :: tagAll t gs
+
+/-- `ds.quads((s, p, o, c))`: `_spoc`, then `for (s, p, o), cg in store.triples((s, p, o), context=c): for ctx in cg:
+    yield s, p, o, ctx` — the triples are selected IN context `c`, but each is reported once per graph that holds it -/
 def State.readQuads4 (s : State) (pat : Pat) (c : CtxArg) : State × Out :=
-  let s1 := s.resolveCtx c
-  (s1, .quads (tagWith c.name ((triplesOf s1.quads c.name).filter pat.matches)))
+  (s.resolveCtx c, .quads (quadsFor s.quads ((triplesOf s.quads c.name).filter pat.matches)))
 
 /-! ### serializers -/
 
@@ -227,8 +241,14 @@ def blocksOf (qs : List Quad) : List GName → List (GName × List Triple)
   | [] => []
   | g :: gs => (g, triplesOf qs g) :: blocksOf qs gs
 
-/-- nt / nt11: `for triple in self.store` -/
-def State.serializeFlat (s : State) : State × Out := (s, .triples s.visible)
+def triplesOfQuads : List Quad → List Triple
+  | [] => []
+  | (t, _) :: qs => t :: triplesOfQuads qs
+
+/-- nt / nt11: `for triple in self.store: _nt_row(triple)` — ITERATION: a `Dataset` yields every quad of every graph
+    and the row prints its first three components (one line per quad, whatever `default_union` says) -/
+def State.serializeFlat (s : State) : State × Out :=
+  (s, .triples (if s.isDataset then triplesOfQuads s.quads else s.visible))
 
 /-- `RecursiveSerializer.preprocess` / `TurtleSerializer.preprocessTriple` over the triples of `self.store`:
     `getQName(node, gen_prefix=(i == VERB))` for subject, predicate, object — the only calls on `self.store`
@@ -250,6 +270,9 @@ def State.serializeTurtle (s : State) (nsOf : Nat → Option Nat) : State × Out
     the two passes still land in the original's prefix tables.  `canonf` = relabelling + sorting of the copy. -/
 def State.serializeLongTurtle (s : State) (nsOf : Nat → Option Nat) (canon : Bool)
     (canonf : List Triple → List Triple) : State × Out :=
+  -- `to_canonical_graph(self.store)` ITERATES the graph handed to the serializer: a `Dataset` yields quads, the
+  -- colouring's `for s, p, o in self.graph` raises — in `reset()`, before any pass has run: nothing is bound
+  if canon && s.isDataset then (s, .err) else
   let content := if canon then unionInto [] (canonf s.visible) else s.visible
   (preprocessTriples nsOf (preprocessTriples nsOf s content) content, .triples content)
 
@@ -454,6 +477,8 @@ structure QShape where
   docs : GName → Option (List Triple)
   body : View → List (List Nat)
   kind : QKind
+  dgUnion : Bool                        -- `rdflib.plugins.sparql.SPARQL_DEFAULT_GRAPH_UNION`: without a dataset clause
+                                        -- `self.graph = self.dataset` (on) / `self.dataset.default_context` (off)
 
 /-- the query context built for a dataset clause: `self.graph = Graph()`, `self._dataset = Dataset()` —
     both FRESH objects with their own stores -/
@@ -501,23 +526,40 @@ def namedBlocks (st : State) (cs : List GName) : List (GName × List Triple) :=
 def QShape.answer (q : QShape) (active : List Triple) (named : List (GName × List Triple)) (srcNs : List Nat) : Out :=
   q.kind.finish active srcNs (q.body ⟨active, named⟩)
 
+/-- `evalGraph` with a constant: `named = ctx.dataset.get_context(g)`; when it is empty the code scans
+    `ctx.dataset.contexts()` for the name ("not the name of a graph of the dataset: no solutions") -/
+def constBlocks (st : State) (known : List GName) : List GName → List (GName × List Triple)
+  | [] => []
+  | g :: gs =>
+    if (triplesOf st.quads g).isEmpty && !(known.contains g) then constBlocks st known gs
+    else (g, triplesOf st.quads g) :: constBlocks st known gs
+
+def anyEmpty (st : State) : List GName → Bool
+  | [] => false
+  | g :: gs => (triplesOf st.quads g).isEmpty || anyEmpty st gs
+
+/-- the default graph of a query without dataset clause -/
+def State.queryDefault (s : State) (dgUnion : Bool) : List Triple :=
+  if dgUnion then s.visible else triplesOf s.quads s.dname
+
 def State.query (s : State) (q : QShape) : State × Out :=
   if q.clauses.isEmpty then
     -- `self._dataset = graph`: the query runs on the dataset itself
-    if q.graphVar then
+    if q.graphVar || anyEmpty s q.graphConsts then
+      -- `ctx.dataset.contexts()` is called (a `Dataset` registers its default graph)
       (s.contextsCall.1,
-       q.answer s.contextsCall.1.visible
-         (namedBlocks s.contextsCall.1 s.contextsCall.2 ++ blocksOf s.contextsCall.1.quads q.graphConsts) s.ns)
-    else (s, q.answer s.visible (blocksOf s.quads q.graphConsts) s.ns)
+       q.answer (s.contextsCall.1.queryDefault q.dgUnion)
+         ((if q.graphVar then namedBlocks s.contextsCall.1 s.contextsCall.2 else [])
+            ++ constBlocks s.contextsCall.1 s.contextsCall.2 q.graphConsts) s.ns)
+    else (s, q.answer (s.queryDefault q.dgUnion) (blocksOf s.quads q.graphConsts) s.ns)
   else
     -- `self._dataset = Dataset(); self.graph = Graph()`: everything is copied / loaded into scratch objects
     match qInit s q.loadGraphs q.docs ⟨[], emptyDataset⟩ q.clauses with
     | none => (s, .err)                                          -- "Could not load …"
     | some c =>
-      if q.graphVar then
-        (s, q.answer c.graph
-              (namedBlocks c.ds.contextsCall.1 c.ds.contextsCall.2 ++ blocksOf c.ds.quads q.graphConsts) [])
-      else (s, q.answer c.graph (blocksOf c.ds.quads q.graphConsts) [])
+      (s, q.answer c.graph
+            ((if q.graphVar then namedBlocks c.ds.contextsCall.1 c.ds.contextsCall.2 else [])
+               ++ constBlocks c.ds c.ds.contextsCall.2 q.graphConsts) [])
 
 /-! ### property paths (seen-set traversal over the active graph; a function of its triples) -/
 
@@ -552,6 +594,31 @@ def evalPath (ts : List Triple) : Path → List (Nat × Nat)
   | .star a => closure (evalPath ts a) (nodesOf ts).length ((nodesOf ts).map (fun n => (n, n)))
   | .neg p => (ts.filter (fun t => t.2.1 != p)).map (fun t => (t.1, t.2.2))
 
+/-! ### `ReadOnlyGraphAggregate` over views of this store (`graphs` = the member list, duplicates allowed) -/
+
+/-- `__len__`: `sum(len(g) for g in self.graphs)` — a triple held by two members counts twice -/
+def aggLen (qs : List Quad) : List GName → Nat
+  | [] => 0
+  | g :: gs => (triplesOf qs g).length + aggLen qs gs
+
+/-- `triples(pat)`: member by member; a triple an EARLIER member holds is skipped
+    (`if any((s1, p1, o1) in g for g in self.graphs[:i]): continue`) -/
+def aggTriples (qs : List Quad) (pat : Pat) : List GName → List GName → List Triple
+  | _, [] => []
+  | seen, g :: gs =>
+    (triplesOf qs g).filter (fun t => pat.matches t && !(seen.any (fun g' => (triplesOf qs g').contains t)))
+      ++ aggTriples qs pat (seen ++ [g]) gs
+
+/-- `pat in aggregate`: `triple in graph` for each member -/
+def aggContains (qs : List Quad) (pat : Pat) : List GName → Bool
+  | [] => false
+  | g :: gs => !((triplesOf qs g).filter pat.matches).isEmpty || aggContains qs pat gs
+
+/-- `quads(pat)`: every member's matching triples with the member graph -/
+def aggQuads (qs : List Quad) (pat : Pat) : List GName → List Quad
+  | [] => []
+  | g :: gs => tagWith g ((triplesOf qs g).filter pat.matches) ++ aggQuads qs pat gs
+
 /-! ### the read operations -/
 
 inductive ReadOp
@@ -582,6 +649,10 @@ inductive ReadOp
   | diff (g1 g2 : GName) (canon : List Triple → List Triple)      -- graph_diff
   | skolemize (sk : Nat → Nat)          -- Graph.skolemize(new_graph=None) / de_skolemize(): `retval = Graph()`
   | qname (nsOf : Nat → Option Nat) (term : Nat)                  -- Graph.qname / compute_qname / Resource.qname
+  | aggLen (gs : List GName)                                       -- ReadOnlyGraphAggregate([views…]).__len__
+  | aggTriples (gs : List GName) (pat : Pat)                       -- .triples(pat)
+  | aggContains (gs : List GName) (pat : Pat)                      -- pat in aggregate
+  | aggQuads (gs : List GName) (pat : Pat)                         -- .quads(pat)
 
 def skolemizeTriples (sk : Nat → Nat) : List Triple → List Triple
   | [] => []
@@ -604,8 +675,11 @@ def State.run (s : State) : ReadOp → State × Out
   | .serializeTrig nsOf => s.serializeTrig nsOf
   | .serializeJsonld => s.serializeJsonld
   | .graphs => (s.contextsCall.1, .names s.contextsCall.2)
-  | .iter => (s, .triples s.visible)
-  | .len => (s, .nat s.visible.length)
+  | .iter => (s, if s.isDataset then .quads s.quads else .triples s.visible)   -- `Dataset.__iter__` = `quads()`
+  | .len =>
+    -- `ConjunctiveGraph.__len__` = `store.__len__()`: every triple of the store once, whatever `default_union` says;
+    -- a plain Graph / a view counts its own context
+    (s, .nat (if s.contextAware then (unionTriples s.quads).length else (triplesOf s.quads s.dname).length))
   | .slice pat => (s, .triples (s.matching pat none))
   | .contains3 pat => (s, .bool !(s.matching pat none).isEmpty)
   | .triplesCtx pat g => s.readTriplesCtx pat g
@@ -628,6 +702,10 @@ def State.run (s : State) : ReadOp → State × Out
                     (fun t => !(unionInto [] (canon (triplesOf s.quads g1))).contains t))])
   | .skolemize sk => (s, .triples (unionInto [] (skolemizeTriples sk s.visible)))
   | .qname nsOf term => (s.getQName nsOf true term, .nat term)
+  | .aggLen gs => (s, .nat (aggLen s.quads gs))
+  | .aggTriples gs pat => (s, .triples (aggTriples s.quads pat [] gs))
+  | .aggContains gs pat => (s, .bool (aggContains s.quads pat gs))
+  | .aggQuads gs pat => (s, .quads (aggQuads s.quads pat gs))
 
 /-- exactly the reads that may add prefix bindings -/
 def ReadOp.mayBind : ReadOp → Bool
@@ -643,5 +721,17 @@ def ReadOp.mayBind : ReadOp → Bool
 def State.runAll (s : State) : List ReadOp → State
   | [] => s
   | r :: rs => (s.run r).1.runAll rs
+
+/-! ### reads through a `Graph` VIEW of one context of the dataset -/
+
+/-- the `Graph` object `ds.get_context(g)` returns: a plain (not context-aware) graph on the SAME store whose own
+    context is `g`; it shares the store's prefix tables (and the dataset's namespace manager) -/
+def State.asView (s : State) (g : GName) : State :=
+  { s with dname := g, isDataset := false, defaultUnion := false }
+
+/-- a read applied to that view; the dataset keeps its own configuration -/
+def State.runView (s : State) (g : GName) (r : ReadOp) : State × Out :=
+  ({ ((s.asView g).run r).1 with dname := s.dname, isDataset := s.isDataset, defaultUnion := s.defaultUnion },
+   ((s.asView g).run r).2)
 
 end RV.C13
